@@ -227,8 +227,11 @@ CFG = {
              "radix-prefixed strings of 1..80 digits, integers that force a rounding decision at 53 bits; non-trivial = x finite "
              "non-zero (formatting) / input contains a digit (parsing); distinct = by hash of the case"),
     "theorem_names": ["parse_decimal_nearest_even", "parse_decimal_wellformed", "parse_decimal_pack", "divmod_spec",
-                      "fixed_correct", "shortest_roundtrips_and_minimal_partial", "dec_pt_sound", "radix_check_sound",
-                      "digs_length"],
+                      "fixed_correct", "shortest_correct", "shortest_total", "of_bits_canonical", "neighbours_suffice",
+                      "shortest_closest_of_neighbours", "dec_pt_sound", "radix_check_sound", "digs_length",
+                      "parse_decimal_unique", "parse_decimal_monotone", "rounding_interval_convex", "round_ratio_exact",
+                      "parse_decimal_overflow_iff", "round_up_side", "round_down_side", "dec_pt_total",
+                      "tostring_layout_steps", "fixed_body_steps", "prec_layout_steps"],
     "allowed_axioms": [],
     "trusted_base": [
         "Coq 8.16.1 kernel + vm_compute (no native_compute); theorems closed under the global context (no axioms)",
@@ -241,18 +244,19 @@ CFG = {
     "assumptions": [
         "the implementation is compared with the proved specification functions on generated samples only; the claim for every double "
         "is proved of the model, not of goja's dtoa/Grisu port",
-        "shortest: that the search over 1..17 digits always succeeds, and that no shorter decimal outside the two neighbouring "
-        "candidates can round to x (monotonicity of rounding), are not proved; every sampled x evaluates to a result",
+        "the grammar front ends (StringToNumber, parseFloat, parseInt, numeric literals) and the assembly of the layout branches into "
+        "toFixed/toExponential/toPrecision are executable definitions, not theorems (the branch equations of the layouts are)",
         "toString(radix) is validated (the emitted digits, read exactly, round to x; lower case; no superfluous zeros), not recomputed",
     ],
     "manifest": {
-        "text": ("proof: the specification is executable and proved on exact integers. parse_decimal (any digit count, any exponent) is "
-                 "proved to return the double nearest to digits*10^e among ALL doubles, ties to the even significand, with overflow exactly "
-                 "from 2^1024-2^970 (nearest_even, overflow_iff, wellformed); toFixed/toExponential/toPrecision digit selection is proved to "
-                 "minimise the error and take the larger n on ties for every digit count; shortest(x) is proved to round-trip and to be the "
-                 "closer neighbour (minimality only against the two neighbouring candidates of each shorter length: partial); the "
-                 "toString(radix) validator is proved sound. goja is tied to these functions on every run: 5000 (quick) / 400000 (thorough) "
-                 "generated conversions incl. big-integer halfway cases up to 1200 digits are executed on /repo and recomputed by vm_compute."),
+        "text": ("proof: the specification is executable and proved on exact integers (24 theorems, no axioms). Rounding of any rational "
+                 "N/D (every string->number path) is proved nearest among ALL doubles with ties to the even significand, value-determined, "
+                 "monotone, exact on doubles, and infinite exactly from 2^1024-2^970; toFixed/toExponential/toPrecision digit selection is "
+                 "proved to minimise the error and take the larger n on ties for every digit count; shortest(x) is proved total (17 digits "
+                 "suffice), to parse back to x, and minimal: no decimal with fewer digits, whatever its digits and exponent, parses to x; the "
+                 "toString(radix) validator is proved sound; the layout branches are proved equal to the ECMA-262 steps. goja is tied to these "
+                 "functions on every run: 5000 (quick) / 400000 (thorough) generated conversions incl. big-integer halfway cases up to 1200 "
+                 "digits are executed on /repo and recomputed by vm_compute."),
         "note": ("trusted: Coq kernel + vm_compute; the hand-written specification functions (layouts and grammars are definitions, not "
                  "theorems); the Go harness; goja's dtoa/Grisu code itself is covered by correspondence on samples, not by proof"),
         "technique": "Rocq proofs about an executable exact-arithmetic specification + differential correspondence against /repo via vm_compute; verified validator for radix output",
